@@ -33,6 +33,8 @@ import (
 	"github.com/aergoio/aergo/v2/zz_verif/vh"
 )
 
+const knownUndecodable = "C09-undecodable-ranking-entry-keeps-old-set"
+
 const period = 100    // "New BPs are elected every 100 blocks" (bp.electionPeriod; tied through Aergo.Gen.Snap and the sref ops)
 const bpCountParam = 12 // system parameter BPCOUNT of these sessions: rankings longer than this are cut
 
@@ -220,6 +222,7 @@ type snapSession struct {
 	slotNo  int64
 	hist    []string
 	bogus   map[string]bool
+	dbFault bool // the chain DB fails for the boundary block of the operation being observed (injected)
 	tainted bool // an injected fault has made the real set differ from the specified one (expected; counted)
 	failed  bool
 }
@@ -355,11 +358,23 @@ func (s *snapSession) observe(op string) {
 	for _, x := range want {
 		hasBogus = hasBogus || s.bogus[x]
 	}
-	if hasBogus || s.store.failNo[refOf(best)] || s.tainted {
-		// injected: an elected entry that is no peer id, or a damaged chain DB: UpdateCluster logs "skip BP member update" and
-		// the OLD set stays entitled. Reported to the lead as a candidate finding (notes/C09.md); counted, not failed.
+	switch {
+	case hasBogus:
+		// KNOWN finding (known_findings.json): an elected entry that is no peer id makes Cluster.Update fail as a whole;
+		// UpdateCluster logs "skip BP member update" and the OLD set stays entitled.
+		if !s.tainted {
+			s.e.run.FailKnown("the producer set in force is not the elected ranking: one ranking entry does not decode as a peer id, Cluster.Update failed and the old set stays entitled",
+				knownUndecodable, map[string]interface{}{"mode": s.mode, "bestBlock": best, "boundary": refOf(best), "specified": want,
+					"inForce": members, "size": size, "lastOps": s.hist})
+		}
 		s.tainted = true
-		s.e.run.Count("snap: producer set differs from the specified ranking after an injected fault (stale set kept)")
+		s.e.run.Count("snap: stale set kept after an undecodable ranking entry (known finding)")
+		return
+	case s.dbFault || s.tainted:
+		// a damaged chain DB while the boundary block is read (injected): outside the property; counted only. Also every
+		// observation until the set is back in line after either kind of fault.
+		s.tainted = true
+		s.e.run.Count("snap: stale set kept after an injected chain-DB read error (outside the property)")
 		return
 	}
 	if !s.failed {
@@ -389,7 +404,9 @@ func (s *snapSession) restart() {
 		s.store.failNo[r] = true
 	}
 	s.e.run.Count("snap-restart")
+	s.dbFault = s.store.failNo[r]
 	s.boot(s.loadTok(best))
+	s.dbFault = false
 	delete(s.store.failNo, r)
 }
 
@@ -465,7 +482,9 @@ func (s *snapSession) connect(no uint64, rank []string) {
 	if no%period == 0 {
 		s.e.run.Count("snap-election-boundary")
 	}
+	s.dbFault = s.store.failNo[r]
 	s.observe(fmt.Sprintf("sconn %d %s %s", no, tokList(top(rank), s.bogus), s.loadTok(no)))
+	s.dbFault = false
 	delete(s.store.failNo, r)
 }
 
@@ -501,7 +520,9 @@ func (s *snapSession) rollback() {
 	s.st.Update(s.store.best().b)
 	crossed := best/period != to/period
 	s.e.run.Count(fmt.Sprintf("snap-rollback crossed-boundary=%v depth=%s", crossed, depthBucket(best-to)))
+	s.dbFault = s.store.failNo[r]
 	s.observe(fmt.Sprintf("sroll %d %s", to, s.loadTok(to)))
+	s.dbFault = false
 	delete(s.store.failNo, r)
 }
 
